@@ -173,6 +173,36 @@ def gen(repo):
         ("add_key_to_repo", fn_body(read(repo, "crates/core/src/commands/key.rs"), "add_key_to_repo"), r"KeyFile::generate\(key,\s*&pass,"),
     ]
     flow_ok = [(n, re.search(rx, b) is not None) for n, b, rx in flow]
+    # (5) id verification on the read path
+    def bodies(src, name):
+        res, n = [], 0
+        while True:
+            try:
+                res.append(fn_body(src, name, n))
+            except ExtractError as e:
+                if "not found" in str(e): break
+            n += 1
+        return res
+    squash = lambda t: " ".join(t.split())
+    dsrc = read(repo, "crates/core/src/backend/decrypt.rs")
+    ref = [squash(b) for b in bodies(strip_tests(dsrc), "read_encrypted_full")]
+    verif = {
+        "decrypt_backend_compares_hash_before_decrypting": any(
+            re.search(r"let data = self\.read_full\(tpe, id\)\?; if self\.verify_id && tpe != FileType::Config && hash\(&data\) != \*id \{ return Err\(", b)
+            and "self.decrypt_file(&data)" in b for b in ref),
+        "open_raw_switches_it_on": re.search(r"let mut dbe = DecryptBackend::new\(self\.be\.clone\(\), key\);.*dbe\.set_verify_id\(true\);.*OpenStatus \{[^}]*\bdbe\b",
+                                             squash(fn_body(read(repo, "crates/core/src/repository.rs"), "open_raw"))) is not None,
+        "dry_run_delegates": any(squash(b) == "self.be.read_encrypted_full(tpe, id)"
+                                 for b in bodies(read(repo, "crates/core/src/backend/dry_run.rs"), "read_encrypted_full")),
+    }
+    offs = []
+    for dp, dn, fn in os.walk(root):
+        for f in sorted(fn):
+            rel = os.path.relpath(os.path.join(dp, f), root)
+            if f.endswith(".rs") and not rel.startswith("verif_hooks"):
+                for m in re.finditer(r"\.set_verify_id\(\s*([^)]*)\)", strip_tests(read(repo, "crates/core/src/" + rel))):
+                    if m.group(1).strip() != "true": offs.append(rel)
+    verif["never_switched_off"] = not offs
     out = ["(* GENERATED by props/C04/extract.py from crates/core/src - do not edit *)",
            "From Verif.Base Require Import Tactics.",
            "From Verif.C04 Require Import Model.",
@@ -195,13 +225,15 @@ def gen(repo):
     out.append("Definition x_kdf_input_generate : kdf_input := %s." % kdf_kind["generate"])
     out.append("(* the password is handed on unchanged by: %s *)" % ", ".join("%s=%s" % (n, "yes" if ok else "NO") for n, ok in flow_ok))
     out.append("Definition x_password_passed_unchanged : bool := %s." % ("true" if all(ok for _, ok in flow_ok) else "false"))
+    out.append("(* id verification on the read path: %s *)" % ", ".join("%s=%s" % (k, "yes" if v else "NO") for k, v in verif.items()))
+    out.append("Definition x_read_verifies_id : bool := %s." % ("true" if all(verif.values()) else "false"))
     hist = {}
     for _, _, _, c in sites:
         hist[c] = hist.get(c, 0) + 1
     return "\n".join(out) + "\n", {"sites": sites, "classes": hist, "unencrypted": unenc,
                                    "nonce_len": nonce_len, "overhead": overhead,
                                    "kdf_password_argument": {k: a[0] for k, a in kdf_args.items()},
-                                   "password_flow": dict(flow_ok)}
+                                   "password_flow": dict(flow_ok), "read_verifies_id": verif}
 
 
 if __name__ == "__main__":
